@@ -1115,3 +1115,38 @@ package mcp
 //@   assert at call capabilities: @requested-version-is-never-empty $1 != ""
 //@   assert at call capabilities: @explicit-legacy-version-is-used-as-given opts != nil && wanted != "" && wanted < protocolVersion20260728 ==> $1 == wanted
 //@   assert at call capabilities: @default-falls-back-to-the-last-legacy-version (opts == nil || wanted == "") ==> $1 == protocolVersion20251125
+
+// ---------------------------------------------------------------------------------------------
+// C12 (client/server agreement on Mcp-Param-* headers)
+// ---------------------------------------------------------------------------------------------
+// primitiveToString / encodeHeaderValue: what the client mirrors for a string argument that needs no Base64 wrapping
+// is the string itself.
+//@ func primitiveToString [C12]
+//@   ensures @strings-are-mirrored-verbatim typeIs(value, string) ==> result.1 && result.0 == value.(string)
+//@ func encodeHeaderValue [C12]
+//@   track requiresBase64Encoding as wrap
+//@   ensures @plain-strings-are-mirrored-verbatim typeIs(value, string) && calls(wrap) == 1 && !callResult(wrap, 1, 0) ==> result.1 && result.0 == value.(string)
+//@ func requiresBase64Encoding [C12]
+//@   pure
+//@ func encodeBase64 [C12]
+//@   pure
+
+// validateParamHeaders: a parameter header counts as missing only if the request carries no such header at all (an
+// empty value mirrors the empty string argument - finding F3, repaired); a header that is present is decoded and
+// compared with the body value.
+//@ func validateParamHeaders [C12]
+//@   track decodeHeaderValue as decode
+//@   track primitiveEqual as same
+//@   track fmt.Errorf as report
+//@   requires msg != nil && tool != nil
+//@   modifies *
+//@   assert at call fmt.Errorf: @missing-only-if-absent $0 == "header mismatch: missing %s header for parameter %q" ==> len(hdrValues(header, local(fullHeader))) == 0
+//@   assert at call decodeHeaderValue: @only-present-headers-are-decoded len(hdrValues(header, local(fullHeader))) > 0
+//@   assert at call primitiveEqual: @decoded-header-is-compared-with-the-body calls(decode) >= 1 && $0 == lastResult(decode, 0) && lastResult(decode, 1)
+//@ func lookupArgument [C12]
+//@   modifies extern
+// extractParamHeaderAnnotations decodes the tool's input schema into fresh values (assumed: it writes nothing else).
+//@ func extractParamHeaderAnnotations
+//@   trusted
+//@   modifies extern
+//@   modifies allElems("paramHeaderBinding"), maps("map[string]headerSchemaProperty")
